@@ -407,6 +407,34 @@ def judge(res, site, text, variables, call, key=None, options=None, dict_vars=No
     res.outcomes['%s %s' % (site.split('/')[0], shape(obs))] += 1
     if not agree(obs, exp):
         res.fail(key or 'model-mismatch fn=%s' % site, case, 'observed %s expected %s' % (show(obs), show(exp)))
+    elif exp[0] == 'v' and isinstance(exp[1], list) and not options:
+        check_representation(res, site.split('/')[0], text, with_dicts(variables, dict_vars), case, exp[1])
+
+
+def check_representation(res, fn, text, variables, case, expected):
+    """A list-valued result that is handed over as a SEQUENCE (not lazily) is a yaql list inside the language too:
+    immutable, equal to the list the model predicts, usable where values are compared and hashed.  (The finalised
+    value looks the same for every sequence type; the unfinalised one is looked at here.)"""
+    try:
+        raw = yq.evaluate(text, variables=variables, options=OPTION_SETS['raw-output'])
+    except Exception:
+        return
+    res.evaluations += 1
+    if not isinstance(raw, (list, tuple)):
+        return                  # an iterator / generator: lazy results are compared by nobody
+    vs = dict(variables or {}, expected__=_frozen(expected))
+    for wrapped, want in (('(%s) = $expected__' % text, True), ('[%s, $expected__].distinct().len()' % text, 1)):
+        got = observe(wrapped, vs)
+        res.evaluations += 1
+        if got != ('v', want):
+            res.fail('python-mutable-result fn=%s (a sequence result that is not a yaql list inside the language)' % fn,
+                     dict(case, wrapped=wrapped), '%s gave %s, expected %r; the unfinalised result is a %s'
+                     % (wrapped, show(got), want, type(raw).__name__))
+            return
+
+
+def _frozen(v):
+    return tuple(_frozen(x) for x in v) if isinstance(v, list) else v
 
 
 # ---------------------------------------------------------------------------
@@ -680,6 +708,9 @@ def judge_rx(res, name, p, flags, s, robj, rx, options=None):
         else:
             key = 'model-mismatch fn=regex %s' % name + (' options=%s' % options if options else '')
         res.fail(key, case, 'observed %s expected %s' % (show(obs), show(exp)))
+    elif exp[0] == 'v' and isinstance(exp[1], list) and not options and all(isinstance(x, str) for x in exp[1]):
+        check_representation(res, 'regex ' + name.split()[0], text, {'s': s, 'p': p} if robj is None else {'s': s, 'r': robj},
+                             case, exp[1])
 
 
 def job_regex(tier, pats):
